@@ -450,11 +450,11 @@ def axis_window_items( *,
     else: # add for iterations when less than 0
         count_window_max = len(labels) + abs(start_shift)
 
-    idx_left_max = count_window_max - 1
+    idx_left_max = len(labels) - 1 # a window cannot start beyond the last label
     idx_left = start_shift
     count = 0
 
-    while True:
+    while idx_left <= idx_left_max:
         # idx_left, size can change over iterations
         idx_right = idx_left + size - 1
 
